@@ -83,6 +83,8 @@ def vary(nb, differing, variant, ignored=()):
         lines = c.source.splitlines(True)
         lines[len(lines) // 2] = lines[len(lines) // 2].rstrip("\r\n") + " # edited\n"
         c.source = "".join(lines)
+        if variant % 5 == 4 and "sources" in ignored and "id" not in ignored and "id" not in differing and b.nbformat_minor >= 5:
+            c.source = lines       # the on-disk form of a multi-line string: a list of lines (cells are aligned by id)
     if "outputs" in differing:
         c = code[variant % len(code)]
         o = c.outputs[0]
@@ -166,6 +168,10 @@ def evaluate(task):
             flags = ["-" + SHORT[c] for c in SHORT if c not in ignored]
         elif ch == "negative":
             flags = ["-" + SHORT[c].upper() for c in ignored]
+        elif ch == "mapflags":
+            flags = ["-" + SHORT[c].upper() for c in ignored if c != "id"]
+            with io.open("nbdime_config.json", "w") as f:
+                json.dump({"NbDiff": {"Ignore": {"/cells/*": ["id"]}}}, f)
         elif ch in ("keylist", "splitmap"):
             m = {}
             for c in ignored:
@@ -231,7 +237,11 @@ def run():
     r = tlc.run("IgnoreMatrix", CFG, workers=1, timeout=900, name="IgnoreMatrix", xmx="4g")
     if r.invariant_violated or r.error:
         raise tlc.TLCError("IgnoreMatrix: %s\n%s" % (r.error, r.out[-1500:]))
-    chk.add_model(r, "IgnoreMatrix 64 x 64 x 7 channels")
+    chk.add_model(r, "IgnoreMatrix 64 x 64 x 8 channels")
+    # design level: with ids ignored the cell alignment is a function of the contents alone (CellAlign.tla:
+    # IgnoredIdsIrrelevant, ExchangedIdsInvisible), compared with nbdime's predicates under identifier=False
+    from . import align
+    align.cell_align(chk, 2, 1 if chk.quick else 2, True)
     seen, cases = set(), []
     for c in r.json_lines("CASE"):
         for f in ("ignored", "differing"):
@@ -289,7 +299,7 @@ def run():
     chk.notes["cases_enumerated_by_tlc"] = len(seen)
     chk.sample(cases[0])
     chk.sample(cases[-1])
-    chk.cov["rule"] = ("cases = initial states of spec/IgnoreMatrix.tla (64 ignored subsets x 64 differing subsets x 6 channels, "
+    chk.cov["rule"] = ("cases = initial states of spec/IgnoreMatrix.tla (64 ignored subsets x 64 differing subsets x 8 channels, "
                        "inexpressible positive-flag cases removed); quick keeps 700 'only ignored differs' cases + 900 others; each in "
                        "its own pristine interpreter; non-trivial = the notebooks differ")
     chk.assumptions += ["the pair generator changes exactly the 'differing' categories (checked by construction in harness/c14.vary)",
